@@ -38,6 +38,16 @@ func c06Cases(tier string, seed uint64, flavor string) []lib.Case {
 	if flavor == "race" {
 		nperturb, ncombo = 1, 4
 	}
+	// more directories and symlinks than the 1024-slot wound channel holds: emptied, missing, half missing, valid
+	for wi, dm := range [][]lib.Damage{{{Op: "rmall"}}, {{Op: "rmroot"}}, nil, {{Op: "rmtree", Path: "w07"}, {Op: "rmtree", Path: "w21"}}} {
+		for si, sc := range []string{"validator-first", "healer-first", "perturb"} {
+			if flavor == "race" && si != 2 {
+				continue
+			}
+			s := c06Spec{Build: "wide", Seed: lib.Mix(seed, 606), Damages: dm, Sched: sc, SchedSeed: lib.Mix(seed, 607, uint64(wi), uint64(si)), Procs: []int{1, 4, 16}[(wi+si)%3]}
+			cases = append(cases, lib.Case{Kind: "wide/" + sc, Spec: lib.MustSpec(s)})
+		}
+	}
 	for bi := 0; bi < nb; bi++ {
 		for _, name := range []string{"nested", "small"} {
 			bs := lib.Mix(seed, 6, uint64(bi))
@@ -163,7 +173,7 @@ func c06Run(c lib.Case, env *lib.Env) lib.Result {
 	var stack string
 	v := lib.RunWithQuiescence(func() {
 		verr, panicked, stack = lib.Guard(func() error { return vctx.Validate(context.Background(), dir, sig) })
-	}, 60*time.Second)
+	}, 30*time.Second)
 	sc.Finish()
 	lib.SetHook(nil)
 	res.Add("heals", 1)
